@@ -52,7 +52,29 @@ ENGINES = [
 
 NOT_APPLICABLE = {}
 
+def c07_runs(tier):
+    if tier == "quick":
+        return [{"cfg": "default", "bin": "c07", "workers": 16}]
+    return [{"cfg": "fast", "bin": "c07", "workers": 16, "args": ["--only", "sweep32"]},
+            {"cfg": "default", "bin": "c07", "workers": 16}]
+
+
 PROPS = {
+    "C07": {
+        "engine": "enumeration + rapidcheck",
+        "technique": "round-trip property (format with SCPI_Result*, feed the bytes back through SCPI_Input, read with SCPI_Param*) over enumerated and rapidcheck-generated values",
+        "level": "round trip through the real message path for all 8/16-bit values in 4 bases, a stratified (quick) or complete (thorough, "
+                 "decimal) 2^32 sweep, all strings <= 4/6 characters over an alphabet with both quotes and separators, blocks of every "
+                 "length 0..1100, and random 64-bit integers, floats, doubles, long texts, blocks and ASCII arrays",
+        "level_note": "the response data is sent back in one SCPI_Input call on a context with a large enough buffer; float tolerance is one "
+                      "unit of the 6th/15th significant digit computed in long double; text is read into a buffer of decoded length + 1",
+        "design_ref": "DESIGN.md section 4, C07",
+        "runs": c07_runs,
+        "rule": "case = (result type, base, value, reader); enumerations are distinct by construction, random cases de-duplicated by hash; "
+                "non-trivial = negative or multi-digit integer, text containing a quote/separator/CR/LF or >= 10 characters, block >= 10 bytes "
+                "(two-digit header), array >= 2 elements, every float/double",
+        "assumptions": COMMON_ASSUME + ["response sent back in a single SCPI_Input call; SCPI_ParamCopyText buffer = decoded length + 1"],
+    },
     "C14": {
         "engine": "enumeration + rapidcheck",
         "technique": "exhaustive/stratified enumeration and rapidcheck-generated values against an independent reference formatter",
